@@ -799,3 +799,61 @@ def emission_table(em: Emission):
             continue
         rows.append((a, all(_feval(f, a) for f in fs)))
     return rows, free
+
+
+# ------------------------------------------------------------------ pass-level stacks (push ... pop around a body)
+def rule_stack_balance(repo: Repo, chk: Check, rule: str, modules=("generate_code", "compile_pass")):
+    """self.<attr>.append(x) on an attribute that the same module also pops (a stack kept by a pass while it compiles a
+    construct) is followed by self.<attr>.pop() on every path to a normal return of the function: an entry left behind
+    makes every later consumer of <attr>[-1] see the wrong construct (the loop of a break/continue, the current function)."""
+    n = 0
+    for mn in modules:
+        if not repo.has_mod(mn):
+            continue
+        m = repo.mod(mn)
+        popped = {norm(c.func.value) for c in ast.walk(m.tree) if isinstance(c, ast.Call) and isinstance(c.func, ast.Attribute) and c.func.attr == "pop" and not c.args
+                  and isinstance(c.func.value, ast.Attribute) and isinstance(c.func.value.value, ast.Name) and c.func.value.value.id == "self"}
+        if not popped:
+            continue
+        for q, fn in m.funcs.items():
+            pushes = [c for c in ast.walk(fn) if isinstance(c, ast.Call) and isinstance(c.func, ast.Attribute) and c.func.attr == "append" and norm(c.func.value) in popped
+                      and enclosing_def(c) is fn]
+            if not pushes:
+                continue
+            cfg, rd = fn_ctx(fn)
+            for c in pushes:
+                stack = norm(c.func.value)
+                n += 1
+                ids = live_ids(cfg, c)
+                if not ids:
+                    continue
+                pops = {i for x in ast.walk(fn) if isinstance(x, ast.Call) and isinstance(x.func, ast.Attribute) and x.func.attr == "pop" and not x.args and norm(x.func.value) == stack
+                        for i in live_ids(cfg, x)}
+                # follow normal control flow only (an exception aborts the compilation)
+                seen, work, leak = set(), [b for b, lab in cfg.succ[ids[0]] if not (isinstance(lab, tuple) and lab[0] == "exc")], None
+                prev = {}
+                while work:
+                    a = work.pop()
+                    if a in seen or a in pops:
+                        continue
+                    seen.add(a)
+                    if a == cfg.exit.id:
+                        leak = a
+                        break
+                    for b, lab in cfg.succ[a]:
+                        if isinstance(lab, tuple) and lab[0] == "exc":
+                            continue
+                        prev.setdefault(b, a)
+                        work.append(b)
+                via = None
+                if leak is not None:
+                    a = leak
+                    while a in prev and cfg.nodes[a].kind != "return":
+                        a = prev[a]
+                    via = getattr(cfg.nodes[a].ast, "lineno", None) if cfg.nodes[a].ast is not None else None
+                chk.judge(rule, f"{mn}:{q}:{stack}.append(..) is popped on every path", leak is None,
+                          f"{stack}.append({norm(c.args[0]) if c.args else ''}) at line {c.lineno} reaches the end of {q} without {stack}.pop()"
+                          + (f" (through the return at line {via})" if via else "") + f": the entry stays on the stack and every later reader of {stack}[-1] "
+                          f"sees this construct instead of its own", {"stack": stack}, f"{m.path}:{c.lineno} in {q}")
+    if n == 0:
+        chk.ok(rule, "package:no pass-level stack is pushed in a handler", None, vacuous=True)
